@@ -503,6 +503,14 @@ func (ef *Filter) filterTaggable(ctx context.Context, t Taggable, filterOverride
 			return fmt.Errorf("%s: %w", op, err)
 		}
 	}
+	// a taggable map must be tracked even when none of its tags matched a
+	// field, so all of its untagged fields are still filtered as secrets.
+	tv := reflect.ValueOf(t)
+	if tv.Kind() == reflect.Map || (tv.Kind() == reflect.Ptr && !tv.IsNil() && tv.Elem().Kind() == reflect.Map) {
+		if err := tm.trackMap(&tMap{value: tv}); err != nil {
+			return fmt.Errorf("%s: %w", op, err)
+		}
+	}
 	return nil
 }
 
